@@ -16,11 +16,11 @@ type TokKind int
 const (
 	Lit TokKind = iota
 	Group
-	Whole  // $& / $0 handled as Group 0
-	Left   // $`
-	Right  // $'
-	Last   // $+
-	Input  // $_
+	Whole // $& / $0 handled as Group 0
+	Left  // $`
+	Right // $'
+	Last  // $+
+	Input // $_
 )
 
 type Tok struct {
